@@ -1,6 +1,8 @@
 (* Proof obligations over facts regenerated from /repo on every check (Generated/SourceFacts.v,
-   written by harness/cmd/facts).  Topic: srv.  When an edit of the sources changes a fact, the
-   lemma below stops compiling; the checks of the properties that depend on this topic then report
+   written by harness/cmd/facts).  Topic: srv.  The facts are semantic summaries (orders, literal
+   sets, capacity classes, parent classes of contexts, lock events per path), so a behaviour-
+   preserving rewrite regenerates the same facts; when an edit changes what the theorems rest on,
+   the lemma below stops compiling, the checks of the properties that depend on this topic report
    the broken obligation by name and search for a failing input. *)
 From Coq Require Import List String ZArith Bool.
 Import ListNotations.
@@ -10,7 +12,5 @@ Open Scope string_scope.
 
 Lemma srv_scale_ok : srv_scale_lits = [100%Z].
 Proof. reflexivity. Qed.
-
-(* the tie to the C15 model *)
 Lemma srv_scale_matches_model : srv_scale_lits = [Verif.Model.C15.srv_scale].
 Proof. reflexivity. Qed.
